@@ -555,7 +555,7 @@ class PyCdlib:
     __slots__ = ('_initialized', '_cdfp', 'pvds', 'svds', 'vdsts', 'brs', 'pvd',
                  'rock_ridge', '_always_consistent', '_has_udf', 'joliet_vd',
                  'eltorito_boot_catalog', 'isohybrid_mbr', '_managing_fp', 'xa',
-                 '_needs_reshuffle', '_rr_moved_record', '_rr_moved_name',
+                 '_needs_reshuffle', '_edited', '_rr_moved_record', '_rr_moved_name',
                  '_rr_moved_rr_name', 'enhanced_vd', 'version_vd', 'inodes',
                  'interchange_level', '_write_check_list', '_track_writes',
                  'udf_beas', 'udf_nsr', 'udf_teas', 'udf_anchors',
@@ -601,6 +601,7 @@ class PyCdlib:
         self.udf_file_set = udfmod.UDFFileSetDescriptor()
         self.udf_file_set_terminator = None  # type: Optional[udfmod.UDFTerminatingDescriptor]
         self._needs_reshuffle = False
+        self._edited = False
         self._rr_moved_record = dr.DirectoryRecord()
         self._rr_moved_name = None  # type: Optional[bytes]
         self._rr_moved_rr_name = None  # type: Optional[bytes]
@@ -3290,6 +3291,7 @@ class PyCdlib:
         Returns:
          Nothing.
         """
+        self._edited = True
         for pvd in self.pvds:
             pvd.add_to_space_size(num_bytes_to_add + num_partition_bytes_to_add)
         if self.joliet_vd is not None:
@@ -3325,6 +3327,7 @@ class PyCdlib:
         Returns:
          Nothing.
         """
+        self._edited = True
         for pvd in self.pvds:
             pvd.remove_from_space_size(num_bytes_to_remove)
         if self.joliet_vd is not None:
@@ -4809,6 +4812,11 @@ class PyCdlib:
 
         if old_num_extents != new_num_extents:
             raise pycdlibexception.PyCdlibInvalidInput('When modifying a file in-place, the number of extents for a file cannot change!')
+
+        if self._edited:
+            # The locations this object has in mind are no longer the ones of
+            # the ISO file underneath.
+            raise pycdlibexception.PyCdlibInvalidInput('Cannot modify a file in place after other changes; write the ISO and open it again first')
 
         if not child.is_file():
             raise pycdlibexception.PyCdlibInvalidInput('Cannot modify a directory with modify_file_in_place')
